@@ -196,7 +196,9 @@ class Watcher:
         # Feed all updates to the workflow and clean up.
         self.busy_watching.clear()
         async with self.db:
-            old_hashes = self.workflow.get_file_hashes(self.updated | self.deleted)
+            old_hashes = self.workflow.get_file_hashes(
+                self.updated | self.deleted, cause=HashUpdateCause.EXTERNAL
+            )
 
         # Hashing runs outside any held transaction.
         # Each hash job applies its own result in its own short transaction,
